@@ -474,12 +474,13 @@ func borderImageWidth(_ *ComputedStyle, _ pr.KnownProp, _value pr.CssProperty) p
 
 // Compute the “border-image-outset“ property.
 func borderImageOutset(computer *ComputedStyle, _ pr.KnownProp, _value pr.CssProperty) pr.CssProperty {
-	values := _value.(pr.Values)
+	// (a copy: the declared value is shared by every element the rule applies to)
+	values := append(pr.Values(nil), _value.(pr.Values)...)
 	for i, value := range values {
 		if value.Unit == pr.Scalar {
 			values[i] = value
 		} else {
-			values[i] = length_(computer, value, 0, false)
+			values[i] = length_(computer, value, -1, false)
 		}
 	}
 
@@ -811,7 +812,7 @@ func computeTrackBreadth(computer *ComputedStyle, value pr.DimOrS) pr.DimOrS {
 		if value.Unit == pr.Fr {
 			return value
 		} else {
-			return length_(computer, value, 0, false)
+			return length_(computer, value, -1, false)
 		}
 	}
 }
@@ -849,7 +850,8 @@ func gridTemplate(computer *ComputedStyle, _ pr.KnownProp, _value pr.CssProperty
 
 // Compute the “grid-auto-*“ properties.
 func gridAuto(computer *ComputedStyle, _ pr.KnownProp, _value pr.CssProperty) pr.CssProperty {
-	values := _value.(pr.GridAuto)
+	// (a copy: the declared value is shared by every element the rule applies to)
+	values := append(pr.GridAuto(nil), _value.(pr.GridAuto)...)
 	for i, value := range values {
 		values[i] = computeGridDims(computer, value)
 	}
